@@ -136,6 +136,19 @@ Definition rstep (rs : rstate) (it : jitem) (o : obs5) : rstate * bool :=
                 r_jobs := nset j f' (r_jobs rs); r_depth := r_depth rs; r_acc := r_acc rs |},
              res_py_eq (o_ret o) (Ok JNull))
       end
+  | JMove j =>
+      match nlookup j (r_jobs rs) with
+      | None => (rs, false)
+      | Some f =>
+          let f' := (f + 10)%N in
+          if negb (nmem f (r_dirs rs)) then (rs, res_py_eq (o_ret o) (Err ERuntimeError))
+          else if nmem f' (r_dirs rs) then (rs, res_py_eq (o_ret o) (Err EDestinationExists))
+          else
+            ({| r_docs := nset f' (rdoc rs f) (nremove f (r_docs rs));
+                r_dirs := add_dir (del_dir (r_dirs rs) f) f';
+                r_jobs := nset j f' (r_jobs rs); r_depth := r_depth rs; r_acc := r_acc rs |},
+             res_py_eq (o_ret o) (Ok JNull))
+      end
   | JRemove j =>
       match nlookup j (r_jobs rs) with
       | None => (rs, false)
@@ -198,6 +211,10 @@ Fixpoint shared_in_block (jobs : list (N * N)) (d : nat) (acc : list (N * (list 
       match it with
       | JOpen j f _ => shared_in_block (nset j f jobs) d acc r
       | JRekey j f' => shared_in_block (nset j f' jobs) d acc r
+      | JMove j => match nlookup j jobs with
+                   | Some f => shared_in_block (nset j (f + 10)%N jobs) d acc r
+                   | None => shared_in_block jobs d acc r
+                   end
       | JEnter _ => shared_in_block jobs (S d) acc r
       | JExit => match d with
                  | O => shared_in_block jobs d acc r
@@ -273,6 +290,11 @@ Fixpoint symlink_shared (jobs : list (N * (N * bool))) (d : nat) (acc : list (N 
       | JRekey j f' =>
           match nlookup j jobs with
           | Some (_, a) => symlink_shared (nset j (f', a) jobs) d acc r
+          | None => symlink_shared jobs d acc r
+          end
+      | JMove j =>
+          match nlookup j jobs with
+          | Some (f, _) => symlink_shared (nset j ((f + 10)%N, false) jobs) d acc r
           | None => symlink_shared jobs d acc r
           end
       | JEnter _ => symlink_shared jobs (S d) acc r
